@@ -4,6 +4,8 @@ import (
 	"context"
 	"encoding/json"
 	"fmt"
+	"os"
+	"runtime"
 	"strings"
 	"time"
 
@@ -325,7 +327,7 @@ func init() {
 	Builders["iter"] = buildIter
 	Defs["C15"] = &Def{
 		ID:   "C15",
-		Rule: "real searchctl.Iterative.Launch on small roots (K v K, fortress, checkmated, stalemated, mate-in-1 net) x depth limit {none,1,2,3} x table {off,on} x time control {none, given}; the same with captures-only quiescence at the leaves on roots where a capture mates just beyond the horizon; the same with a table that an earlier analysis of the same root to another depth limit (deeper and shallower) has filled; threads: the iterative-deepening goroutine, its quit-cancel goroutine, a consumer, a halter whose Halt becomes enabled at scheduler step k for a grid of k over the whole run (halt instant enumerated), the hard-limit timer (release step enumerated), a consumer that itself calls Halt as soon as it has received depth 1 or 2 next to that timer (two callers of Halt; timer at every step of a grid and as a lazy thread), the search / quit-cancel / consumer goroutine in turn held back for 60 steps after the halt instant (slow-thread dimension) and, with a time control, every time.Since answered 'short' or 'longer than any limit' (environment deviation); all schedules within the deviation bound. Oracle: reported depths strictly increasing; every reported and every Halt-returned (score, PV with table off) equals a direct fixed-depth search; ends by itself exactly at the depth limit or at the first depth with a forced mate within the depth, never earlier, never without a reason; Halt returns a completed iteration >= 1 at least as deep as everything reported before it was requested. Plus the complete grid of TimeControl.Limits (sequential), and a free-running engine analysing a three-move root under a grid of time controls incl. clocks of zero and below (overstepped): depth 1 first, increasing, ends, Halt returns a completed iteration; a two-minute watchdog turns a hang into a finding. distinct_nontrivial = distinct (depth stream, halt result) classes",
+		Rule: "real searchctl.Iterative.Launch on small roots (K v K, fortress, checkmated, stalemated, mate-in-1 net) x depth limit {none,1,2,3} x table {off,on} x time control {none, given}; the same with captures-only quiescence at the leaves on roots where a capture mates just beyond the horizon; the same with a table that an earlier analysis of the same root to another depth limit (deeper and shallower) has filled; threads: the iterative-deepening goroutine, its quit-cancel goroutine, a consumer, a halter whose Halt becomes enabled at scheduler step k for a grid of k over the whole run (halt instant enumerated), the hard-limit timer (release step enumerated), a consumer that itself calls Halt as soon as it has received depth 1 or 2 next to that timer (two callers of Halt; timer at every step of a grid and as a lazy thread), the search / quit-cancel / consumer goroutine in turn held back for 60 steps after the halt instant (slow-thread dimension) and, with a time control, every time.Since answered 'short' or 'longer than any limit' (environment deviation); all schedules within the deviation bound. Oracle: reported depths strictly increasing; every reported and every Halt-returned (score, PV with table off) equals a direct fixed-depth search; ends by itself exactly at the depth limit or at the first depth with a forced mate within the depth, never earlier, never without a reason; Halt returns a completed iteration >= 1 at least as deep as everything reported before it was requested. Plus the complete grid of TimeControl.Limits (sequential), and a free-running engine analysing a three-move root under a grid of time controls incl. clocks of zero and below (overstepped): at least one depth, increasing, ends, Halt returns a completed iteration; a two-minute watchdog turns a hang into a finding; and depth limits 126..130, 254..257, 300 (around every width a depth or mate distance might be squeezed into) on a root where every line is a fifty-move draw: increasing depths, ends exactly at the limit. distinct_nontrivial = distinct (depth stream, halt result) classes",
 		Gen: func(tier string) []explore.Scenario {
 			roots := []string{kP1, kFortress, kMated, kStale, "7k/8/5K2/6Q1/8/8/8/8 b - - 0 1",
 				"7k/8/6K1/8/8/8/8/R7 b - - 0 1",  // the side to move is mated in 2: the analysis must end at depth 3
@@ -461,13 +463,14 @@ func init() {
 			c.SetExtra("time_control_limits_grid_points", n)
 			c.Evaluations.Add(int64(n))
 			engineClockGrid(c)
+			deepLimits(c)
 		},
 	}
 }
 
 // engineClockGrid: a real engine (running free, real timers) analyses a tiny root under every time
 // control of a grid that includes what a GUI sends when a side has overstepped - clocks of zero and
-// below. Whatever the clocks say, the analysis must report depth 1 first, in increasing order, end,
+// below. Whatever the clocks say, the analysis must report at least one completed depth, in increasing order, end,
 // and Halt must then return a completed iteration. A generous watchdog (two minutes for an analysis
 // of a few microseconds) turns a hang into a finding instead of a hung check.
 func engineClockGrid(c *harness.Check) {
@@ -495,7 +498,7 @@ func engineClockGrid(c *harness.Check) {
 							}
 							last := 0
 							for pv := range out {
-								if pv.Depth != last+1 {
+								if pv.Depth <= last { // (the stream keeps only the latest iteration: a consumer may miss one)
 									done <- fmt.Sprintf("reported depth %d after depth %d", pv.Depth, last)
 									return
 								}
@@ -530,5 +533,73 @@ func engineClockGrid(c *harness.Check) {
 		}
 	}
 	c.SetExtra("engine_clock_grid_points", n)
+	c.Evaluations.Add(int64(n))
+}
+
+// deepLimits: depth limits far beyond what a real search reaches - around every width a depth or a
+// mate distance might be squeezed into - on a root where an iteration costs next to nothing (K+R v K
+// with the half-move clock at 99: every line is a fifty-move draw after one move, no mate is ever
+// found). Running free: the analysis must report depth 1, 2, 3, ... without a gap and end by itself
+// exactly at the limit, and Halt then returns that last iteration.
+func deepLimits(c *harness.Check) {
+	root := "7k/8/8/8/8/8/R7/K7 w - - 99 80"
+	n := 0
+	for _, limit := range []uint{126, 127, 128, 129, 130, 254, 255, 256, 257, 300} {
+		for _, table := range []bool{false, true} {
+			what := fmt.Sprintf("root %q depth limit %d table=%v", root, limit, table)
+			done := make(chan string, 1)
+			go func() {
+				ctx := context.Background()
+				b, err := fen.NewBoard(root)
+				if err != nil {
+					done <- err.Error()
+					return
+				}
+				var tt search.TranspositionTable = search.NoTranspositionTable{}
+				if table {
+					tt = search.NewTranspositionTable(ctx, 1<<16)
+				}
+				l := &searchctl.Iterative{Root: iterRoot()}
+				h, out := l.Launch(ctx, b, tt, eval.Random{}, searchctl.Options{DepthLimit: lang.Some(limit)})
+				last := 0
+				for pv := range out {
+					if pv.Depth <= last { // (a slow consumer may miss iterations: increasing, not gap-free)
+						done <- fmt.Sprintf("reported depth %d after depth %d", pv.Depth, last)
+						return
+					}
+					if pv.Score != eval.ZeroScore {
+						done <- fmt.Sprintf("depth %d reported with score %v; every line is a draw", pv.Depth, pv.Score)
+						return
+					}
+					last = pv.Depth
+				}
+				if last != int(limit) {
+					done <- fmt.Sprintf("the analysis ended by itself at depth %d; nothing but the depth limit %d can end it", last, limit)
+					return
+				}
+				if pv := h.Halt(); pv.Depth != last {
+					done <- fmt.Sprintf("Halt returned depth %d after the analysis had ended at depth %d", pv.Depth, last)
+					return
+				}
+				done <- ""
+			}()
+			n++
+			select {
+			case msg := <-done:
+				if msg != "" {
+					c.Violation(fmt.Sprintf("C15/deep-limit %d table=%v", limit, table), what+": "+msg, "note", nil)
+				}
+			case <-time.After(2 * time.Minute):
+				if os.Getenv("VERIF_TRACE") != "" {
+					buf := make([]byte, 1<<20)
+					fmt.Fprintf(os.Stderr, "goroutines at the time-out:\n%s\n", buf[:runtime.Stack(buf, true)])
+				}
+				c.Violation(fmt.Sprintf("C15/deep-limit-hang %d", limit), what+": the analysis did not end within two minutes (300 iterations of a three-move search)", "note", nil)
+				c.SetExtra("deep_limit_cases", n)
+				return
+			}
+		}
+	}
+	c.SetExtra("deep_limit_cases", n)
 	c.Evaluations.Add(int64(n))
 }
